@@ -150,6 +150,8 @@ def execute(plan, want_refs=True, timeout=120.0):
         f = r.get("io_fault")
         if f and f.get("fired"):
             stats["faults_fired"][f["kind"]] = stats["faults_fired"].get(f["kind"], 0) + 1
+        if r.get("seam_raise"):
+            stats["faults_fired"]["seam-raise"] = stats["faults_fired"].get("seam-raise", 0) + 1
 
     def viol(oracle, rec, kind, detail):
         step = idx[rec["id"]]
@@ -160,7 +162,13 @@ def execute(plan, want_refs=True, timeout=120.0):
     # ---- O2: argument immutability (recorded by the history itself)
     for r in recs:
         for name in r.get("o2", []):
-            viol("O2", r, "mutated:" + obj_kind(plan, idx, name), f"{name} changed during step {r['id']} ({r['op']})")
+            viol("O2", r, "mutated:" + obj_kind(plan, idx, name), f"the public state of {name} reads differently after step {r['id']} ({r['op']}) than before it")
+
+    # ---- O6: results must not change after they were returned
+    if prop == "C20":
+        for r in recs:
+            if r.get("o6"):
+                viol("O6", r, "result-changed-after-return", f"the value returned by step {r['id']} ({r['op']}) was different at the end of the history")
 
     # ---- O5: model agreement (only where the property asks for it)
     if prop in ("C17", "C15"):
